@@ -452,7 +452,8 @@ impl<'a> Tr<'a> {
             self.needs_fuel = true;
             return Err(unsupported(e, &format!("call of the fuelled function `{}` (retry with fuel)", f.key)));
         }
-        if !f.assoc_params.is_empty() || !f.const_generics.is_empty() {
+        let inherited = self.inherited_assoc(&f, env);
+        if (!f.assoc_params.is_empty() && inherited.is_none()) || !f.const_generics.is_empty() {
             return Err(unsupported(e, &format!("effectful call of `{}`, which has const generic / associated-constant parameters", f.key)));
         }
         let (recv_expr, args): (Option<&Expr>, Vec<&Expr>) = match e {
@@ -468,6 +469,9 @@ impl<'a> Tr<'a> {
             });
         }
         a.extend(self.mvar_args(&f.mvars, env, e)?);
+        if let Some(inh) = inherited {
+            a.extend(inh);
+        }
         let mut writebacks: Vec<(String, Vec<Member>)> = vec![];
         let mut args = args;
         if f.self_kind != SelfKind::None {
